@@ -1,6 +1,7 @@
 (* MemDefs.v — allocation LEDGER model of xalanc's XalanVector / XalanList / ArenaAllocator (+ArenaBlock)
    as the code is (Include/XalanVector.hpp, Include/XalanList.hpp, PlatformSupport/ArenaAllocator.hpp,
-   ArenaBlock.hpp, ArenaBlockBase.hpp).  Every operation is a function  state -> heap -> heap * state * ok
+   ArenaBlock.hpp, ArenaBlockBase.hpp) - with the repairs of K8 (no head node is created by empty() / size() /
+   clear(); reset() tests empty() first).  Every operation is a function  state -> heap -> heap * state * ok
    where the heap is the memory manager's view: fresh block ids, the table of outstanding blocks with the
    manager that handed them out, a failure fuse (the allocation after [k] successful ones throws, once), a
    [bad] flag raised by a deallocate of a block that is not outstanding in that manager (foreign / double
@@ -216,10 +217,15 @@ Definition list_erase (l : xlist) (pos : nat) : xlist :=
   | None => l
   end.
 
+(* clear(): nothing to do for a list that has no head node yet (and then no node is created) *)
 Definition list_clear (tag : nat) (l : xlist) (h : heap) : heap * xlist * bool :=
-  match get_head tag l h with
-  | (h1, l1, true) => (h1, mklist (lm l1) (lhead l1) [] (rev (lnodes l1) ++ lfree l1), true)
-  | r => r
+  match lhead l with
+  | None => if list_clear_guarded then (h, l, true)
+            else match get_head tag l h with
+                 | (h1, l1, true) => (h1, mklist (lm l1) (lhead l1) [] (rev (lnodes l1) ++ lfree l1), true)
+                 | r => r
+                 end
+  | Some _ => (h, mklist (lm l) (lhead l) [] (rev (lnodes l) ++ lfree l), true)
   end.
 
 Definition list_swap (a b : xlist) : xlist * xlist :=
@@ -251,7 +257,7 @@ Definition lstep (op : lop) (w : xlist * xlist) (h : heap) : heap * (xlist * xli
   | LInsert i pos => lift i (list_insert TAG_LNODE (sel i w) (Nat.min pos (length (lnodes (sel i w)))) h)
   | LErase i pos => (h, upd i w (list_erase (sel i w) pos), true)
   | LClear i => lift i (list_clear TAG_LNODE (sel i w) h)
-  | LEmpty i => lift i (get_head TAG_LNODE (sel i w) h)
+  | LEmpty i => if list_empty_nonallocating then (h, w, true) else lift i (get_head TAG_LNODE (sel i w) h)
   | LSwap => let '(a, b) := list_swap (fst w) (snd w) in (h, (a, b), true)
   end.
 
@@ -285,35 +291,34 @@ Definition add_obj (blocks : list ablock) (o : nat) : list ablock :=
   | b :: r => rev r ++ [mkblk (bstruct b) (bstore b) (bobjs b ++ [o])]
   end.
 
+(* allocateBlock() when there is no block with room: m_blocks.push_back(ArenaBlockType::create(...)).
+   The argument is evaluated first (struct, then storage; the allocation guard releases the struct when the
+   storage is refused); push_back(x) is constructNode(x, end()), and end() creates the head node of a list
+   that was never used (m_blocks.empty() itself no longer does).  When the head node or the list node is
+   refused the new block is lost. *)
+Definition arena_new_block (a : arena) (h : heap) : heap * arena * bool :=
+  match alloc (am a) TAG_ABLK 1 h with
+  | (h2, None) => (h2, a, false)
+  | (h2, Some bs) =>
+      match alloc (am a) TAG_ASTORE (absize a) h2 with
+      | (h3, None) => (free (am a) bs h3, a, false)
+      | (h3, Some st) =>
+          match list_insert TAG_ANODE (alist a) (length (lnodes (alist a))) h3 with
+          | (h4, l2, true) => (h4, mkarena l2 (ablocks a ++ [mkblk bs st []]) (absize a) (aleak a), true)
+          | (h4, l2, false) =>
+              (h4, mkarena l2 (ablocks a) (absize a) ((bs, lm l2) :: (st, lm l2) :: aleak a), false)
+          end
+      end
+  end.
+
 (* p = allocateBlock(); new (p) Obj(manager, osz); commitAllocation(p) *)
 Definition arena_new_obj (a : arena) (osz : nat) (h : heap) : heap * arena * bool :=
-  match get_head TAG_ANODE (alist a) h with                   (* m_blocks.empty() *)
-  | (h1, l1, false) => (h1, a, false)
-  | (h1, l1, true) =>
-      let a1 := mkarena l1 (ablocks a) (absize a) (aleak a) in
-      let r :=
-        if last_full a1 then
-          match alloc (am a1) TAG_ABLK 1 h1 with                (* ArenaBlock::create: XalanConstruct *)
-          | (h2, None) => (h2, a1, false)
-          | (h2, Some bs) =>
-              match alloc (am a1) TAG_ASTORE (absize a1) h2 with   (* ArenaBlockBase(): m_allocator.allocate *)
-              | (h3, None) => (free (am a1) bs h3, a1, false)      (* the allocation guard releases the struct *)
-              | (h3, Some st) =>
-                  match construct_node TAG_ANODE l1 (length (lnodes l1)) h3 with   (* m_blocks.push_back *)
-                  | (h4, l2, true) => (h4, mkarena l2 (ablocks a1 ++ [mkblk bs st []]) (absize a1) (aleak a1), true)
-                  | (h4, _, false) =>
-                      (h4, mkarena l1 (ablocks a1) (absize a1) ((bs, am a1) :: (st, am a1) :: aleak a1), false)
-                  end
-              end
-          end
-        else (h1, a1, true) in
-      match r with
-      | (h5, a2, false) => (h5, a2, false)
-      | (h5, a2, true) =>
-          match alloc (am a2) TAG_BYTE osz h5 with              (* the object's constructor *)
-          | (h6, None) => (h6, a2, false)
-          | (h6, Some o) => (h6, mkarena (alist a2) (add_obj (ablocks a2) o) (absize a2) (aleak a2), true)
-          end
+  match (if last_full a then arena_new_block a h else (h, a, true)) with
+  | (h5, a2, false) => (h5, a2, false)
+  | (h5, a2, true) =>
+      match alloc (am a2) TAG_BYTE osz h5 with              (* the object's constructor *)
+      | (h6, None) => (h6, a2, false)
+      | (h6, Some o) => (h6, mkarena (alist a2) (add_obj (ablocks a2) o) (absize a2) (aleak a2), true)
       end
   end.
 
@@ -321,14 +326,22 @@ Definition block_dtor (m : mgr) (b : ablock) (h : heap) : heap :=
   let objs := if arenablock_dtor_all_objects then bobjs b else removelast (bobjs b) in
   free m (bstruct b) (free m (bstore b) (free_all m objs h)).
 
-(* reset(): for_each(begin(), end(), DeleteFunctor); m_blocks.clear() *)
-Definition arena_reset (a : arena) (h : heap) : heap * arena * bool :=
+(* reset(): if (!m_blocks.empty()) { for_each(begin(), end(), DeleteFunctor); m_blocks.clear(); } *)
+Definition arena_reset_body (a : arena) (h : heap) : heap * arena * bool :=
   match get_head TAG_ANODE (alist a) h with
   | (h1, l1, false) => (h1, a, false)
   | (h1, l1, true) =>
       let h2 := fold_left (fun h b => block_dtor (lm l1) b h) (ablocks a) h1 in
       (h2, mkarena (mklist (lm l1) (lhead l1) [] (rev (lnodes l1) ++ lfree l1)) [] (absize a) (aleak a), true)
   end.
+
+Definition arena_reset (a : arena) (h : heap) : heap * arena * bool :=
+  if arena_reset_guarded then
+    match lhead (alist a), lnodes (alist a) with
+    | Some _, _ :: _ => arena_reset_body a h
+    | _, _ => (h, a, true)
+    end
+  else arena_reset_body a h.
 
 (* ~ArenaAllocator: reset(), then ~XalanList.  ok = false: an allocation was refused inside the
    destructor (std::terminate in C++11) *)
